@@ -50,6 +50,11 @@ func (e *Exec) initPkg(p *ssa.Package) {
 	}
 	e.inited[p] = true
 	fn := p.Func("init")
+	if fn != nil && fn.Blocks == nil {
+		// dependency packages are built lazily; without this the first path of
+		// a run would skip their variable initialisers
+		p.Build()
+	}
 	if fn == nil || fn.Blocks == nil {
 		return
 	}
